@@ -130,4 +130,38 @@ def dump (redactSet : List Bytes) (reqLine hostLine : Bytes) (hs : List Header) 
 def isInfixB (a b : Bytes) : Bool :=
   (List.range (b.length + 1)).any fun i => (b.drop i).take a.length == a
 
+/-! HTTP header names are case-insensitive: a header is a credential header if its name equals a listed
+name up to ASCII case.  `dumpRequest` looks the map key up exactly; keys produced by net/http are in
+canonical spelling, which is the spelling of the list. -/
+
+def lowerB (b : Bytes) : Bytes := b.map fun c => if 65 ≤ c.toNat ∧ c.toNat ≤ 90 then c + 32 else c
+
+/-- `k` names a listed credential header (case-insensitively) -/
+def listedCI (rs : List Bytes) (k : Bytes) : Bool := rs.any fun r => lowerB r == lowerB k
+
+/-- the request with the values of ALL credential headers (whatever the spelling of the key) erased -/
+def eraseSecretsCI (rs : List Bytes) (hs : List Header) : List Header :=
+  hs.map fun h => if listedCI rs h.1 then (h.1, h.2.map fun _ => []) else h
+
+/-- decidable side condition: every credential header of the request is spelled as in the list -/
+def keysCanonical (rs : List Bytes) (hs : List Header) : Bool :=
+  hs.all fun h => !listedCI rs h.1 || rs.contains h.1
+
+/-- what the dump must look like: every value of every credential header replaced by the placeholder -/
+def idealHeaders (rs : List Bytes) (hs : List Header) : Bytes :=
+  hs.flatMap fun h => h.2.flatMap fun v =>
+    h.1 ++ colonSp ++ (if listedCI rs h.1 then placeholder else v) ++ crlf
+
+/-- **Executable spec on the implementation's dump** `out`: the planted secrets are all non-empty values
+of credential headers; one leaks if it occurs in `out` although it occurs nowhere in the request outside
+the credential headers (request line, Host line, other headers, body — i.e. not in the ideal dump).
+Result: leaked values under canonically spelled keys / under other spellings. -/
+def leaked (rs : List Bytes) (reqLine hostLine : Bytes) (hs : List Header) (body out : Bytes) :
+    List Bytes × List Bytes :=
+  let ideal := reqLine ++ hostLine ++ idealHeaders rs hs ++ crlf ++ body
+  let bad (h : Header) : List Bytes :=
+    h.2.filter fun v => v ≠ [] && isInfixB v out && !isInfixB v ideal
+  let cred := hs.filter fun h => listedCI rs h.1
+  ((cred.filter fun h => rs.contains h.1).flatMap bad, (cred.filter fun h => !rs.contains h.1).flatMap bad)
+
 end MtxVerif.C07
